@@ -4,8 +4,25 @@
 From Coq Require Import List Bool Arith String.
 Import ListNotations.
 From Lime Require Import Base.Res Hs.Types Hs.Server Hs.Monitor Corr.HsServer Corr.HsChecks.
-Definition case := scase.
-Definition check (c : scase) : bool := c14_check c.
-Definition agrees (c : scase) : bool := match c14_proj (k_obs c), c14_proj (model_obs c) with (a, b, d), (a', b', d') => evs_eqb a a' && Bool.eqb b b' && Bool.eqb d d' end.
-Definition mismatches (cs : list scase) : list nat := bad_indices agrees cs.
-Definition violations (cs : list scase) : list nat := bad_indices check cs.
+(* besides the scripted handshakes: a peer that sends one envelope that cannot start a session and vanishes at
+   once, over every transport of a real Server (an implementation-only direct check: Model B plays its inputs in
+   lock-step and does not represent the in-process transport's "already closed when the reply is attempted") *)
+Inductive case :=
+| KScript (c : scase)
+| KAbrupt (est_cb fin_cb : nat) (ended : bool).
+
+Definition check (c : case) : bool :=
+  match c with
+  | KScript s => c14_check s
+  | KAbrupt est fin ended => Nat.eqb est 0 && Nat.eqb fin 0 && ended
+  end.
+Definition agrees (c : case) : bool :=
+  match c with
+  | KScript s =>
+      match c14_proj (k_obs s), c14_proj (model_obs s) with
+      | (a, b, d), (a', b', d') => evs_eqb a a' && Bool.eqb b b' && Bool.eqb d d'
+      end
+  | KAbrupt _ _ _ => true
+  end.
+Definition mismatches (cs : list case) : list nat := bad_indices agrees cs.
+Definition violations (cs : list case) : list nat := bad_indices check cs.
